@@ -483,12 +483,20 @@ func (r *Run) sortedAfter(acc ssa.Value, l *mapLoop) (bool, string) {
 	fn := l.fn
 	var sorts []ssa.CallInstruction
 	var otherUses []ssa.Instruction
-	consider := func(v ssa.Value, ins ssa.Instruction) {
+	var consider func(v ssa.Value, ins ssa.Instruction)
+	consider = func(v ssa.Value, ins ssa.Instruction) {
 		if l.blocks[ins.Block()] {
 			return
 		}
+		// sort.Slice takes the slice as `any`: look through the conversion
+		if mi, ok := ins.(*ssa.MakeInterface); ok {
+			for _, ref := range *mi.Referrers() {
+				consider(mi, ref)
+			}
+			return
+		}
 		if ci, ok := ins.(ssa.CallInstruction); ok {
-			if kind, isSort := isSortCall(ci.Common()); isSort && len(ci.Common().Args) > 0 && unwrap(ci.Common().Args[0]) == v {
+			if kind, isSort := isSortCall(ci.Common()); isSort && len(ci.Common().Args) > 0 && (unwrap(ci.Common().Args[0]) == v || ci.Common().Args[0] == v) {
 				if kind == "less" {
 					if ok, why := r.totalLess(ci.Common().Args[1]); !ok {
 						otherUses = append(otherUses, ins)
@@ -626,6 +634,8 @@ func ruleReducers(r *Run) {
 			r.checkChunkReducer(fn, call, mapF, redF)
 		case "AS-index":
 			r.checkAppendSortReducer(fn, call, mapF, redF)
+		case "POS-index":
+			r.checkPositionalReducer(fn, call, mapF, redF)
 		case "multiset":
 			// the reducer must be a pure concatenation (append of value's parts to acc's parts)
 			okShape := true
@@ -652,13 +662,194 @@ func ruleReducers(r *Run) {
 
 type reducerClass struct{ kind, why string }
 
+// checkPositionalReducer: the fan-out runs over lo.Range(len(G)), the accumulator is made with
+// len(G) slots, every successful worker returns a value that carries its own index in a field,
+// and the reducer stores at acc[value.<field>] and nowhere else: results are placed by
+// position, independent of completion order.
+func (r *Run) checkPositionalReducer(fn *ssa.Function, call *ssa.Call, mapF, redF *ssa.Function) {
+	const rule = "R9b"
+	name := fnName(fn)
+	site := r.P.pos(call.Pos())
+	fail := func(why string) {
+		r.Bad(rule, name, "AsyncMapReduce reducer", site, "the reducer classified as positional is not: "+why+" — results would be placed by arrival order")
+	}
+	var groups ssa.Value
+	if rc, ok := unwrap(call.Call.Args[0]).(*ssa.Call); ok && strings.HasSuffix(calleeName(&rc.Call), "lo.Range") && len(rc.Call.Args) == 1 {
+		if lc, ok := rc.Call.Args[0].(*ssa.Call); ok {
+			if b, ok := lc.Call.Value.(*ssa.Builtin); ok && b.Name() == "len" {
+				groups = viaCell(lc.Call.Args[0])
+			}
+		}
+	}
+	if groups == nil {
+		fail("the payload is not lo.Range(len(<list>))")
+		return
+	}
+	mk, ok := unwrap(call.Call.Args[1]).(*ssa.MakeSlice)
+	okLen := false
+	if ok {
+		if lc, ok := mk.Len.(*ssa.Call); ok {
+			if b, ok := lc.Call.Value.(*ssa.Builtin); ok && b.Name() == "len" && viaCell(lc.Call.Args[0]) == groups {
+				okLen = true
+			}
+		}
+	}
+	if !okLen {
+		fail("the accumulator is not made with one slot per element of the same list")
+		return
+	}
+	if len(mapF.Params) != 1 || len(redF.Params) != 2 {
+		fail("unexpected worker/reducer signature")
+		return
+	}
+	// the field that carries the index
+	var carrier *types.Var
+	for _, ins := range allInstrs(mapF) {
+		st, ok := ins.(*ssa.Store)
+		if !ok || unwrap(st.Val) != ssa.Value(mapF.Params[0]) {
+			continue
+		}
+		if fa, ok := st.Addr.(*ssa.FieldAddr); ok {
+			if _, isAlloc := fa.X.(*ssa.Alloc); isAlloc {
+				carrier = fieldOf(fa)
+			}
+		}
+	}
+	if carrier == nil {
+		fail("the worker's result does not carry the worker's index")
+		return
+	}
+	// every successful return yields a struct whose carrier field was stored from the index
+	for _, ret := range returnsOf(mapF) {
+		vals := retVals(ret)
+		if len(vals) != 2 || !isNilConst(unwrap(vals[1])) {
+			continue
+		}
+		al, ok := unwrap(vals[0]).(*ssa.Alloc)
+		stored := false
+		if ok {
+			for _, ref := range *al.Referrers() {
+				if fa, ok := ref.(*ssa.FieldAddr); ok && fieldOf(fa) == carrier {
+					for _, r2 := range *fa.Referrers() {
+						if st, ok := r2.(*ssa.Store); ok && unwrap(st.Val) == ssa.Value(mapF.Params[0]) {
+							stored = true
+						}
+					}
+				}
+			}
+		}
+		if !stored {
+			fail("a successful return of the worker does not carry its index (at " + r.P.pos(retPos(ret)) + ")")
+			return
+		}
+	}
+	// reducer: one store, at acc[value.carrier]; returns acc
+	stores := 0
+	for _, ins := range allInstrs(redF) {
+		switch x := ins.(type) {
+		case *ssa.Store:
+			ia, ok := x.Addr.(*ssa.IndexAddr)
+			if !ok || ia.X != ssa.Value(redF.Params[0]) {
+				fail("the reducer writes somewhere else than into its accumulator")
+				return
+			}
+			ld, ok := ia.Index.(*ssa.UnOp)
+			okIdx := false
+			if ok && ld.Op == token.MUL {
+				if fa, ok := ld.X.(*ssa.FieldAddr); ok && fieldOf(fa) == carrier && fa.X == ssa.Value(redF.Params[1]) {
+					okIdx = true
+				}
+			}
+			if !okIdx {
+				fail("the reducer does not index its accumulator by the carried index")
+				return
+			}
+			stores++
+		case *ssa.Call:
+			if b, ok := x.Call.Value.(*ssa.Builtin); ok && b.Name() == "append" {
+				fail("the reducer appends")
+				return
+			}
+		}
+	}
+	if stores != 1 {
+		fail("the reducer does not store exactly once")
+		return
+	}
+	r.OK(rule, name, "AsyncMapReduce reducer", site, "positional: one worker per index of the list, each result carries its index in ."+carrier.Name()+", the accumulator has one slot per index and the reducer stores at acc[value."+carrier.Name()+"] only")
+	// the entry sort that makes the order of the incoming requests irrelevant
+	r.checkSortedEntry(fn)
+}
+
+// checkSortedEntry (R9b.sorted-entry): DepthExecutor.Execute sorts the request list it was
+// given with a comparator that always compares, before anything else looks at the list.
+func (r *Run) checkSortedEntry(fn *ssa.Function) {
+	const rule = "R9b.sorted-entry"
+	if len(fn.Params) < 2 {
+		return
+	}
+	list := fn.Params[len(fn.Params)-1]
+	var sortCall ssa.CallInstruction
+	why := "the request list is not sorted on entry"
+	for _, ins := range allInstrs(fn) {
+		ci, ok := ins.(ssa.CallInstruction)
+		if !ok {
+			continue
+		}
+		kind, isSort := isSortCall(ci.Common())
+		if !isSort || len(ci.Common().Args) == 0 || viaCell(unwrap(ci.Common().Args[0])) != ssa.Value(list) && unwrap(ci.Common().Args[0]) != ssa.Value(list) {
+			continue
+		}
+		if kind == "less" {
+			if ok, w := r.totalLess(ci.Common().Args[1]); !ok {
+				why = w
+				continue
+			}
+		}
+		sortCall = ci
+	}
+	good := sortCall != nil
+	if good {
+		// every other use of the list is after the sort
+		for _, ins := range allInstrs(fn) {
+			if ins == ssa.Instruction(sortCall) {
+				continue
+			}
+			uses := false
+			for _, op := range ins.Operands(nil) {
+				if *op != nil && viaCell(*op) == ssa.Value(list) {
+					uses = true
+				}
+			}
+			if _, isLen := ins.(*ssa.Call); isLen && uses {
+				if b, ok := ins.(*ssa.Call).Call.Value.(*ssa.Builtin); ok && b.Name() == "len" {
+					continue
+				}
+			}
+			if _, isStore := ins.(*ssa.Store); isStore {
+				continue // the spill of the parameter into its cell
+			}
+			if _, isMI := ins.(*ssa.MakeInterface); isMI {
+				continue
+			}
+			if uses && !instrDominates(sortCall, ins) {
+				good = false
+				why = "the request list is used at " + r.P.pos(ins.Pos()) + " before it is sorted"
+			}
+		}
+	}
+	r.Check(good, rule, fnName(fn), "requests sorted on entry", r.P.pos(fn.Pos()),
+		"the incoming requests are put into a fixed order (comparator that always compares) before they are grouped: the arrival order of the previous depth's results is not observable",
+		"DepthExecutor.Execute groups and sends the requests in the order in which the previous depth happened to finish ("+why+"): which of several failing entries of a batch is reported, and what a service is asked first, changes from run to run")
+}
+
 var reducerTable = map[string]reducerClass{
 	"pebbles.(*Gateway).queryHandler":                                           {"POS-queryHandler", ""},
 	"queryer.(*MultiOpQueryer).Query":                                           {"POS-chunks", ""},
 	"introspection.(*ParallelRemoteSchemaIntrospector).IntrospectRemoteSchemas": {"AS-index", ""},
-	"executor.(*DepthExecutor).Execute":                                         {"multiset", "results are merged into the response by insertion point (disjoint response keys per step; dem.merge is keyed) and next requests only decide batch order"},
-	"executor.(*DepthExecutor).parseRespones":                                   {"multiset", "one execution result per request, merged by insertion point; order of the list is not observable"},
-	"executor.findNextExecutionRequestsAsync":                                   {"multiset", "next execution requests: only their position inside the next batch depends on order"},
+	"executor.(*DepthExecutor).Execute":                                         {"POS-index", ""},
+	"executor.(*DepthExecutor).parseRespones":                                   {"multiset", "per request of ONE service group: one execution result (merged at that request's own insertion point — different requests of a group have different insertion points or belong to different steps) and its next requests; the next requests are re-sorted by a total order at the entry of DepthExecutor.Execute (checked: R9b.sorted-entry), so their arrival order is not observable. An earlier version of this line claimed the order was unobservable outright; it was not (the first failing entry of a batch decides which error is reported) until Execute began to sort"},
+	"executor.findNextExecutionRequestsAsync":                                   {"multiset", "next execution requests only: re-sorted by a total order at the entry of DepthExecutor.Execute (R9b.sorted-entry)"},
 }
 
 // checkChunkReducer: MultiOpQueryer.Query — the chunk index stored in the mapped value is the
@@ -887,9 +1078,10 @@ func (r *Run) checkAppendSortReducer(fn *ssa.Function, call *ssa.Call, mapF, red
 // ---- R9c ----------------------------------------------------------------------------------
 
 var selectTable = map[string]tabEntry{
-	"common.AsyncMapReduce$2":             {1, "reducer select: results and errors are consumed in arrival order; consumers are order-insensitive by R9b, and C13 tolerates the relative order of errors"},
-	"pebbles.(*subscriptionEntry).Listen": {1, "event vs. close: a close racing with an event may or may not deliver that last event (teardown, C18), not a determinism issue for answered operations"},
-	"pebbles.sendHeartbeat":               {1, "ticker vs. cancellation"},
+	"common.AsyncMapReduce$2":               {1, "reducer select: results and errors are consumed in arrival order; consumers are order-insensitive by R9b, and C13 tolerates the relative order of errors"},
+	"pebbles.(*subscriptionEntry).Listen":   {1, "event vs. close: a close racing with an event may or may not deliver that last event (teardown, C18), not a determinism issue for answered operations"},
+	"pebbles.sendHeartbeat":                 {1, "ticker vs. cancellation"},
+	"queryer.(*MultiOpQueryer).Subscribe$1": {1, "close requested vs. handshake failed: either way the connection is closed, nothing else happens"},
 }
 
 func ruleSelects(r *Run) {
@@ -964,17 +1156,17 @@ func stepListLoops(fn *ssa.Function) []*mapLoop {
 }
 
 var stepLoopTable = map[string]tabEntry{
-	"executor.NewDepthExecutorManager":            {1, "walkPlanStep appends each step to the list of its depth: the order inside a depth only decides the order of requests inside a batch"},
+	"executor.NewDepthExecutorManager":            {1, "walkPlanStep appends each step to the list of its depth: the order inside a depth only decides the order in which requests are created, and DepthExecutor.Execute sorts the requests it is given before grouping and sending them (R9b.sorted-entry; before repair 719a0ce the batch order was observable: the first failing entry of a batch decides which error is reported)"},
 	"executor.walkPlanStep":                       {1, "recursion over Then: appends to per-depth lists, see NewDepthExecutorManager"},
-	"pebbles.(*Gateway).getQueryers":              {1, "first-writer-wins per URL, and the value is a function of the URL alone (factory(ctx, url))"},
+	"pebbles.(*Gateway).getQueryers":              {1, "one queryer per URL (children overwrite, the last writer wins), and the value is a function of the URL alone (factory(ctx, url)) for the default factory; a custom factory that depends on more is the embedder's responsibility"},
 	"pebbles.(*Gateway).parseIntrospectionQuery":  {1, "early return at the internal pseudo-service step: routeSelectionSet creates at most one step per location, so at most one step matches"},
 	"pebbles.(*Gateway).newSubscriptionEntry":     {1, "collects the children of the (single) root step; more than one root step is rejected right after"},
-	"pebbles.(*Gateway).newSubscriptionEntry$1":   {1, "one new root step per insertion point of each child: appended list is executed as a set (grouped by URL, merged by insertion point)"},
-	"executor.(*DepthExecutorManager).Execute":    {1, "builds one execution request per root step; the list is grouped by URL and merged by response key"},
-	"executor.findNextExecutionRequestsWithCache": {1, "one request per dependent step and insertion point; consumed as a set"},
+	"pebbles.(*Gateway).newSubscriptionEntry$1":   {1, "one new root step per insertion point of each child: the requests built from the appended list are sorted on entry of DepthExecutor.Execute (R9b.sorted-entry), grouped by URL and merged by insertion point"},
+	"executor.(*DepthExecutorManager).Execute":    {1, "builds one execution request per root step; the list is sorted on entry of DepthExecutor.Execute (R9b.sorted-entry), grouped by URL and merged by response key"},
+	"executor.findNextExecutionRequestsWithCache": {1, "one request per dependent step and insertion point; sorted on entry of DepthExecutor.Execute at the next depth (R9b.sorted-entry)"},
 	"planner.(*QueryPlan).SetComputedValues":      {1, "rewrites element i with the computed form of element i"},
 	"planner.(*QueryPlanStep).SetComputedValues":  {1, "rewrites element i with the computed form of element i"},
-	"planner.extractSelectionSet":                 {1, "searches the children created so far for the step of one URL and insertion point: at most one matches (steps are keyed by location)"},
+	"planner.extractSelectionSet":                 {1, "searches the children created so far for the step of one URL and insertion point; the list is in selection order (not map order), so the first match is the same on every run"},
 }
 
 func ruleStepListLoops(r *Run) {
